@@ -187,5 +187,22 @@ func (p *persistInst) Observe() map[string]any {
 func (p *persistInst) Fingerprint() string {
 	return core.Fingerprint(p.da, fpOpt) + "##" + core.Fingerprint(p.st.Canon(), nil)
 }
-func (p *persistInst) Probe() map[string]any { return nil }
+// Probe drains the pool with fresh subscribers (as in PoolSystem).
+func (p *persistInst) Probe() map[string]any {
+	n := 0
+	seen := map[int]bool{}
+	for i := 0; i < p.s.Geo.NUnits()+2; i++ {
+		pf, err := p.da.Allocate(bg, defaultSubID(1000+i))
+		if err != nil {
+			break
+		}
+		u := p.s.Geo.UnitOfNet(pf)
+		if seen[u] {
+			return map[string]any{"drain": -2}
+		}
+		seen[u] = true
+		n++
+	}
+	return map[string]any{"drain": n}
+}
 func (p *persistInst) Close()                 { p.cancel() }
